@@ -158,7 +158,25 @@ func (s *vGStmt) Query(args []driver.Value) (driver.Rows, error) {
 			return nil, err
 		}
 	}
-	return s.Stmt.Query(args) //lint:ignore SA1019 legacy interface on purpose
+	rows, err := s.Stmt.Query(args) //lint:ignore SA1019 legacy interface on purpose
+	if err != nil || s.g == nil {
+		return rows, err
+	}
+	return &vGRows{rows, s.g, s.q}, nil
+}
+
+// vGRows: fetching a row is an operation of its own (a connection can die in the middle of a result set)
+type vGRows struct {
+	driver.Rows
+	g *vGate
+	q string
+}
+
+func (r *vGRows) Next(dest []driver.Value) error {
+	if err := r.g.pass("next:" + r.q); err != nil {
+		return err
+	}
+	return r.Rows.Next(dest)
 }
 
 // regate reopens the world's two sqlite files through the gate driver.
